@@ -21,7 +21,7 @@ import (
 //     (single- and multi-element; acceptance and the `more` flag against the key set), and every false
 //     claim obtained by dropping one element, changing one value, adding one absent key of the interval.
 //
-// heights 1..3: every key set (quick); height 4: sampled (quick) / every 8th (thorough).
+// heights 1..3: every key set (quick and thorough); height 4: ~25 random sets (quick) / every 256th set (thorough).
 func (c *ctx) rangeSmallSection(r *lib.RNG, out chan<- batch, rcfg string) {
 	type job struct {
 		id     int
@@ -46,10 +46,10 @@ func (c *ctx) rangeSmallSection(r *lib.RNG, out chan<- batch, rcfg string) {
 		for mask := 1; mask < 1<<(1<<h); mask++ {
 			if h == 4 {
 				if c.f.Thorough() {
-					if mask%8 != 3 {
+					if mask%256 != 3 {
 						continue
 					}
-				} else if r.Intn(160) != 0 {
+				} else if r.Intn(2500) != 0 {
 					continue
 				}
 			}
